@@ -192,13 +192,52 @@ class Runner:
         return res
 
     def run_hypothesis(self, examples):
+        prop, ctx = self.prop, self.ctx
+        if examples <= 0:
+            return
+        strata = prop.strata(ctx) if hasattr(prop, "strata") else None
+        if strata:
+            # Stratified generation: Hypothesis clusters its top-level choices within a few dozen examples (it re-uses
+            # and mutates earlier choice sequences), which can leave a (kind, version) stratum empty in a whole run.
+            # Each stratum [label, strategy, weight] is therefore its own Hypothesis run, owned by one shard
+            # (balanced assignment below), with its share of the run's whole example budget.
+            if len(strata) < 2 * ctx.nshards:
+                # few strata: split each into replicas (own seed each) so that every shard has work
+                r = -(-2 * ctx.nshards // len(strata))
+                strata = [["%s#%d" % (label, i), strat, w / float(r)] for label, strat, w in strata for i in range(r)]
+                strata.sort(key=lambda t: t[0].split("#")[1])
+            total_w = float(sum(w for _, _, w in strata))
+            # strata -> shards: heaviest first onto the least loaded shard (deterministic), so shards finish together
+            load = [0.0] * ctx.nshards
+            owner = {}
+            for j in sorted(range(len(strata)), key=lambda j: (-strata[j][2], j)):
+                k = min(range(ctx.nshards), key=lambda q: (load[q], q))
+                owner[j] = k
+                load[k] += strata[j][2]
+            order = [(j, st_) for j, st_ in enumerate(strata) if owner[j] == ctx.shard]
+            # rotate with the seed, so that a time budget does not always cut the same strata
+            if order:
+                r = ctx.seed % len(order)
+                order = order[r:] + order[:r]
+            for j, (label, strat, w) in order:
+                n = max(4, int(round(examples * ctx.nshards * w / total_w)))
+                self._run_one(strat, n, "%s|%s" % (label, j))
+                self.stats.extra.setdefault("strata_examples", {})
+                lab = label.split("#")[0]
+                self.stats.extra["strata_examples"][lab] = self.stats.extra["strata_examples"].get(lab, 0) + n
+                if self.stats.budget_hit:
+                    break
+            return
+        strat = prop.strategy(ctx)
+        if strat is None:
+            return
+        self._run_one(strat, examples, "")
+
+    def _run_one(self, strat, examples, label):
         import hypothesis
         from hypothesis import HealthCheck, Phase, given, settings
         prop, ctx = self.prop, self.ctx
-        strat = prop.strategy(ctx)
-        if strat is None or examples <= 0:
-            return
-        hseed = int(h8("%s|%d|%d" % (prop.id, ctx.seed, ctx.shard)), 16) % (2 ** 63)
+        hseed = int(h8("%s|%d|%d|%s" % (prop.id, ctx.seed, ctx.shard, label)), 16) % (2 ** 63)
 
         @hypothesis.seed(hseed)
         @settings(max_examples=examples, deadline=None, database=None, derandomize=False,
